@@ -170,7 +170,7 @@ class TVGEMINI(_FDivergence):
                 extended_p_y_grad = cross_prod_grad @ np.transpose(extended_p_y_x,
                                                                    axes=[0, 2, 1])  # NxKxK, NxKx1 => NxKx1
 
-                gradients = np.squeeze(extended_p_y_x_grad) + np.squeeze(extended_p_y_grad).mean(0)
+                gradients = np.squeeze(extended_p_y_x_grad, axis=1) + np.squeeze(extended_p_y_grad, axis=2).mean(0)
             else:
                 gradients = (sign_mask - np.mean(sign_mask, axis=0)) / y_pred.shape[0]
             return tv_gemini, 0.5 * gradients * clip_mask
